@@ -322,3 +322,20 @@ theorem getVarStr_safe (m : Msg) (n : Nat) (dst : D) (nul idx : Nat) :
       exact ⟨_, _, _, _, rfl, fun h => absurd h hn⟩
 
 end N2k.Text
+
+namespace N2k.Text
+
+/-- `GetVarStr` on a destination of size 0 (the size query) writes nothing at all -/
+theorem getVarStr_zero (m : Msg) (dst : D) (nul idx : Nat) :
+    ∃ r sz idx', getVarStr m 0 dst nul idx = .ok (r, sz, idx', dst) := by
+  obtain ⟨len, i1, hg1, _⟩ := getByte_total m idx
+  obtain ⟨type, i2, hg2, _⟩ := getByte_total m i1
+  have hn : ¬ (0 > 0) := by omega
+  simp only [getVarStr, hg1, hg2, bind_ok, if_neg hn, pure_eq]
+  split
+  · split
+    · exact ⟨_, _, _, rfl⟩
+    · exact ⟨_, _, _, rfl⟩
+  · exact ⟨_, _, _, rfl⟩
+
+end N2k.Text
